@@ -48,7 +48,7 @@ def run_scenario(sc):
     from tola.assembly.build_assembly import BuildAssembly
     from tola.assembly.gap import Gap
     t = {"tid": sc["tid"], "cls": sc["cls"], "tn": sc["tn"], "td": sc["td"], "naming": sc.get("naming", ""), "valid": sc["valid"],
-         "input": sc["input"], "map": sc["map"], "haps": sc.get("haps", ["" for _ in sc["input"]]), "status": "ok", "out": [], "stats": {"cuts": 0, "breaks": 0, "joins": 0}, "msg": ""}
+         "input": sc["input"], "map": sc["map"], "haps": sc.get("haps", ["" for _ in sc["input"]]), "style": sc.get("style", "plain"), "status": "ok", "out": [], "stats": {"cuts": 0, "breaks": 0, "joins": 0}, "msg": ""}
 
     def go(_):
         ia, p = build_objects(sc)
@@ -112,6 +112,16 @@ def export(run, name, tn, td, mode, maxedits, nrandom, maxperturb=0, simulate=No
     if cap and len(objs) > cap:
         objs = rng.sample(objs, cap)
     return objs, r
+
+
+def model_check(run, tn, td, mode, maxedits, nrandom, maxperturb, name):
+    """design level: the implementation-shaped pipeline model satisfies the property predicates on every map TLC reaches"""
+    cfg = (f'SPECIFICATION Spec\nCONSTANTS TN = {tn} TD = {td} MinTex = 2 MaxEdits = {maxedits} MaxPieces = 4 NRandom = {nrandom} '
+           f'Mode = "{mode}" MaxPerturb = {maxperturb} NameStyle = "plain"\nVIEW View\nCHECK_DEADLOCK FALSE\nINVARIANT ModelSatisfiesProperties\n')
+    r = C.tlc("RemapMC", cfg, run.dir, name=name, timeout=2400, args=["-seed", str(C.seed() + 1)], heap="6g")
+    return {"config": name, "texel": f"{tn}/{td}", "mode": mode, "max_edits": maxedits, "states": r["distinct"], "generated": r["generated"],
+            "design_holds": bool(r["completed"] and not r["violated"]), "violated": r["violated"], "wall_s": r["wall_s"],
+            "error": "" if r["completed"] or r["violated"] else r["out"][-600:]}
 
 
 def judge(run, traces, props, label="RemapTrace"):
